@@ -65,7 +65,9 @@ func genSettleScenario(r *kernel.Rand, prop string) *kernel.Scenario {
 			sc.Steps = append(sc.Steps, kernel.St("pay", "from", r.Intn(2), "amt", amt, "coe", r.Weighted([]int{6, 1})))
 		}
 	}
-	if prop == "C04" && nsub > 0 && r.Bool(0.3) {
+	if (prop == "C04" && nsub > 0 && r.Bool(0.3)) || (prop == "C03" && len(openSubs) > 0 && r.Bool(0.3)) {
+		// (C03: the settlement starts while an update of an open sub-channel waits
+		// for a slow decision, and the first Settle attempts are impatient)
 		c["slow_sub_update_ms"] = int64([]int{2000, 7000}[r.Intn(2)])
 		c["short_settle_ctx"] = 1
 	}
@@ -346,6 +348,30 @@ func (p *pair) settle(step int, st *kernel.Step) {
 		// cooperative: make the last state final (the receiver may reject by policy; then the dispute path is taken)
 		p.pay(step, chans[first], first, st.Int("amt"), 60*time.Second, true)
 	}
+	if ms := p.s.Sc.Cfg("slow_sub_update_ms", 0); ms > 0 && p.s.Sc.Property == "C03" {
+		// an update of an open sub-channel is pending, whose receiver takes
+		// seconds to decide: the sub-channel's machine locks are held on both
+		// sides while the settlement of the ledger channel starts
+		for k := range p.subs {
+			if si := &p.subs[k]; !si.closed {
+				from := int(st.Int("secondary")) & 1
+				p.mu.Lock()
+				if p.slowNext == nil {
+					p.slowNext = map[string]time.Duration{}
+				}
+				p.slowNext[p.n[1-from].Name] = time.Duration(ms) * time.Millisecond
+				p.mu.Unlock()
+				p.wg.Add(1)
+				go func() {
+					defer p.wg.Done()
+					p.pay(step, si.chans[from], from, 1, 30*time.Second, false)
+				}()
+				time.Sleep(2*time.Millisecond + p.s.Delay("driver:slow-sub-gap", 0, time.Millisecond))
+				p.s.Count("fault.slow_decision_on_sub_update", 1)
+				break
+			}
+		}
+	}
 	cd := time.Duration(chans[0].Params().ChallengeDuration) * time.Second
 	errs := make([]error, 2)
 	done := make(chan int, 2)
@@ -360,7 +386,13 @@ func (p *pair) settle(step int, st *kernel.Step) {
 			// the channel tree may fail and is repeated, as a user would.
 			var err error
 			for attempt := 0; attempt < 6; attempt++ {
-				err = chans[side].Settle(ctx, st.Int("secondary") == 1 && side != first)
+				actx, acancel := ctx, context.CancelFunc(func() {})
+				if p.s.Sc.Cfg("short_settle_ctx", 0) == 1 && attempt < 3 {
+					// an impatient user: the first attempts get 300 ms each
+					actx, acancel = context.WithTimeout(ctx, 300*time.Millisecond+p.s.Delay(fmt.Sprintf("ctx:short-settle:%d", side), 0, time.Millisecond))
+				}
+				err = chans[side].Settle(actx, st.Int("secondary") == 1 && side != first)
+				acancel()
 				p.s.Event(p.n[side].Name, "driver:settle", fmt.Sprintf("attempt %d err=%v", attempt, err))
 				if err == nil || ctx.Err() != nil {
 					break
